@@ -168,9 +168,7 @@ theorem mpc2k_facts (c : Mpc2k.Cfg) (hwf : c.wf) :
   simp only [show ((0x21 : Nat) == 0x04) = false from rfl, show ((0x21 : Nat) == 0x06) = false from rfl,
     show ((0x21 : Nat) == 0x21) = true from rfl, Bool.or_true, Bool.false_eq_true, if_false, if_true, Bool.or_eq_true,
     decide_eq_true_eq, beq_iff_eq]
-  by_cases h : 65536 ≤ c.sr
-  · exact Or.inl h
-  · right; unfold Mpc2k.quant; rw [Nat.min_eq_left (by omega)]
+  rfl                                       -- the 16-bit clause is exact: `Mpc2k.quant` = min sr 65535
 
 /-- MPC2K: every job of whole frames is accepted -/
 theorem mpc2k_session_accepted (c : Mpc2k.Cfg) (hwf : c.wf) (ty : Ty) (stale stale' : Nat) (ops : List Small.Op)
